@@ -311,6 +311,7 @@ impl Check for C01 {
 		if idx == f1_cases() + fx_cases() + f2_cases() + f3_cases() + 1 + F6_EFFECTS.len() as u64 {
 			f7(ctx);
 			f9(ctx);
+			f10(ctx);
 			return;
 		}
 		if idx > f1_cases() + fx_cases() + f2_cases() + f3_cases() {
@@ -1220,6 +1221,64 @@ fn f9(ctx: &mut Ctx) {
 				}
 				ctx.state(hash64(&("f9", persist, spatial_parent, order)));
 			}
+		}
+	}
+}
+
+// ---------------------------------------------------------------------------------------------
+// F10: the physical end of a streaming sound's frame ring (16384 slots). A stream is consumed up to a few frames before the wrap in
+// large callbacks, then frame by frame across it, so that a callback starts at every read position from 16376 to 16392 (and again
+// one lap later) with the decoder ahead: every callback returns normally
+fn f10(ctx: &mut Ctx) {
+	use crate::pacer;
+	use crate::probes::ScriptedDecoder;
+	use kira::sound::streaming::StreamingSoundData;
+	pacer::set_mode(pacer::Mode::Pacer);
+	for (ibs, big) in [(128usize, vec![8192usize, 8184]), (127, vec![127; 128].into_iter().chain([120]).collect::<Vec<_>>()), (1000, vec![16376])] {
+		for ahead in [1u64, 2, 16400] {
+			ctx.evals += 1;
+			let detail = || format!("40000-frame streaming sound at the device rate; internal buffer {}; callbacks {:?}... (16376 frames), then 16 callbacks of 1 frame, then 16368 frames, then 16 callbacks of 1 frame; before each callback the decoder is allowed to get {} frame(s) ahead of what the callback needs", ibs, &big[..big.len().min(3)], ahead);
+			let r = catch(|| {
+				let mut m = rig::manager(SR3, ibs, rig::caps(2), MainTrackBuilder::new());
+				let first = pacer::count();
+				let (dec, stats) = ScriptedDecoder::new((0..40000).map(|i| Frame::from_mono(((i % 97) + 1) as f32 / 128.0)).collect(), SR3, vec![64, 3, 1], 2);
+				let mut h = m.play(StreamingSoundData::from_decoder(dec)).map_err(|_| ()).expect("play");
+				let mut ok = true;
+				let mut granted = 0u64;
+				let mut consumed = 0u64;
+				let mut parts: Vec<usize> = big.clone();
+				parts.extend([1usize; 16]);
+				parts.push(16368);
+				parts.extend([1usize; 16]);
+				for n in parts {
+					// the decoder may be `ahead` frames beyond the end of this callback (at most a full ring beyond what was consumed)
+					let want = (consumed + n as u64 + ahead + 1).min(consumed + 16384);
+					if want > granted {
+						pacer::step_all_from(first, want - granted);
+						granted = want;
+					}
+					let mut buf = vec![0.0f32; 2 * n];
+					let rep = rig::callback(&mut m, &mut buf, n, 2);
+					consumed += n as u64;
+					if !rep.ok() {
+						rig::report_cb(ctx, &rep, "F10 the end of the stream ring", &detail);
+						ok = false;
+						break;
+					}
+				}
+				h.stop(kira::Tween { duration: std::time::Duration::ZERO, ..Default::default() });
+				let mut buf = vec![0.0f32; 2];
+				rig::callback(&mut m, &mut buf, 1, 2);
+				drop(m);
+				crate::probes::reap_decoder(first, &stats);
+				ok
+			});
+			match r {
+				Ok(true) => ctx.nontrivial_extra += 1,
+				Ok(false) => {}
+				Err(p) => ctx.fail(format!("panic: {} :: F10 the end of the stream ring", p), detail()),
+			}
+			ctx.state(hash64(&("f10", ibs, ahead)));
 		}
 	}
 }
